@@ -82,8 +82,8 @@ def run(tier, seed, replay=None):
             scen, nex, nsim, total, _ = gen_scenarios(wd, 3, 60, seed, 3)
             nrand, rlen = 400, 40
         else:
-            scen, nex, nsim, total, _ = gen_scenarios(wd, 4, 3000, seed, 5)
-            nrand, rlen = 6000, 60
+            scen, nex, nsim, total, _ = gen_scenarios(wd, 4, 1500, seed, 12)
+            nrand, rlen = 2500, 50  # (6000 x 60 with every fifth model path needed 30 GB of memory)
         gen_info = dict(model_paths_exhaustive=nex, model_paths_total_at_depth=total, model_paths_simulated=nsim)
         trace = os.path.join(wd, "trace.ndjson")
         rc, out, _ = vlib.go_overlay_test("internal/mockstore/mocktikv", {"zz_verif_test.go": os.path.join(vlib.HARNESS, "mocktikv/zz_verif_test.go")},
